@@ -122,6 +122,37 @@ def extract_loop():
 
 
 def extract_cross_checking():
+    try:
+        return extract_cross_checking_pinned()
+    except Unsupported:
+        # the row body is no longer pinned textually when T14i (gen_kernels_crosscheck.py) translates it statement by
+        # statement: the operator of `outside_right` and the searched set are then read from its structure, so that a
+        # harmless rewrite passes; what the body MEANS is decided by Properties/C07Kernels.lean and C07's correspondence
+        from . import gen_kernels_crosscheck
+        gen_kernels_crosscheck.kernel()
+        return extract_cross_checking_structural()
+
+
+def extract_cross_checking_structural():
+    fn = find_method(find_class(parse(SRC[3]), "CrossCheckingAccurate"), "disparity_checking")
+    ors = ands = 0
+    searched = False
+    for st in walk_stmts(fn):
+        if isinstance(st, ast.Assign) and isinstance(st.value, ast.Call) and src(st.value.func).endswith(".where") \
+                and st.value.args and isinstance(st.value.args[0], ast.BinOp) and "nb_col" in src(st.value) \
+                and "index" not in src(st.value):
+            if isinstance(st.value.args[0].op, ast.BitOr):
+                ors += 1
+            elif isinstance(st.value.args[0].op, ast.BitAnd):
+                ands += 1
+        if isinstance(st, ast.Assign) and isinstance(st.value, ast.Call) and src(st.value.func).endswith(".concatenate"):
+            searched = True
+    if ors + ands != 2 or ands < 1:
+        raise Unsupported("validation.py: inside / outside tests not recognised")
+    return ors == 1, searched and ors == 1
+
+
+def extract_cross_checking_pinned():
     fn = find_method(find_class(parse(SRC[3]), "CrossCheckingAccurate"), "disparity_checking")
     found = {}
     for st in walk_stmts(fn):
